@@ -128,9 +128,31 @@ def custom(tier, seed):
             if not bad:
                 return {'violated': False}
             return {'violated': True, 'known': None, 'what': bad[0], 'replay': {'history': hist}}
-        runner.run_queries(PID, qs + eq)
+        # lint vs the same position queried alone, on programs with several reads per line (E)
+        HL = os.path.join(runner.VERIF, 'harness', 'h_c04l.py')
+        hl = runner.load_module(HL, 'h_c04l_setup')
+        sl = open(HL).read()
+        lq = []
+        for lo in range(0, hl.NPROG, 10):
+            new = 'lintline_%03d' % lo
+            lq.append(Query(new, sl + '\n\n' + copy_fn(sl, 'check', new, '%d <= case < %d' % (lo, min(hl.NPROG, lo + 10))), new, 'main', 300,
+                            per_path=60, meta={'h': 'l'}, label='E'))
+        lq.append(Query('lintline__twin', sl + '\n\n' + copy_fn(sl, 'check', 'lintline__twin', 'case == 0', twin=True), 'lintline__twin', 'twin', 60,
+                        meta={'h': 'l'}))
+
+        def replay_l(q, args, kwargs):
+            h3 = runner.load_module(HL, 'h_c04l_native')
+            bad = h3.problems(args[0])
+            if not bad:
+                return {'violated': False}
+            return {'violated': True, 'known': None, 'what': 'C04 (lint vs the position alone) on\n%s  -> %s' % (tprops._indent(h3.PROGRAMS[args[0]]), bad[0]),
+                    'replay': {'lint_case': args[0], 'text': h3.PROGRAMS[args[0]]}}
+        runner.run_queries(PID, qs + eq + lq)
         rep.absorb(qs, replay)
         rep.absorb(eq, replay_e)
+        rep.absorb(lq, replay_l)
+        rep.bounds_extra = ['lint vs the same position queried alone: %d programs with several reads and bindings on one physical line '
+                            '(13 hand-written one-liners; every family program in the layout that joins as many statements as the parser allows)' % hl.NPROG]
         # natively, through the public API: lint (all reads of one analysis) vs fresh queries, canonical namings
         n = 0
         for sh in shapes:
@@ -148,8 +170,8 @@ def custom(tier, seed):
                          'context_property memos, ImportedName._ref, MultiValue._rvalues through assist/location/lint']
         rep.bounds = ['%d shapes with 2..%d reads; every permutation of the reads as query history (solver-chosen, enumerated: E); '
                       'identifiers symbolic (S)' % (len(shapes), 4 if tier == 'thorough' else 3),
-                      'evaluator level: every history of 2 (and, for a third of the first requests in quick, 3) requests out of 12 '
-                      '(instance / class / module attribute completion and definition, star-import lint) on one Project without edits; histories with edits are C09']
+                      'evaluator level: every history of 2 (and, for a third of the first requests in quick, 3) requests out of %d ' % he.NREQ + 
+                      '(instance / class / module attribute completion and definition, star-import lint) on one Project without edits; histories with edits are C09'] + rep.bounds_extra
         rep.assumptions = ['same stubs as C01-C03 (symbolic containers, UndefinedName marker, find_id_loc, builtin table)',
                            'oracle: the same real code on a fresh analysis state (pure differential)']
         for q in qs[:6]:
@@ -166,6 +188,16 @@ def run(tier, seed):
 
 
 def replay_file(obj):
+    if 'lint_case' in obj:
+        import os
+        h3 = runner.load_module(os.path.join(runner.VERIF, 'harness', 'h_c04l.py'), 'h_c04l_native')
+        bad = h3.problems(obj['lint_case'])
+        if bad:
+            print('VIOLATION property=%s replay=given' % PID)
+            print('  ' + bad[0])
+            return 1
+        print('not reproduced')
+        return 0
     if 'history' in obj:
         import os
         HE = os.path.join(runner.VERIF, 'harness', 'h_c04e.py')
